@@ -22,6 +22,19 @@
    fresh and has a frame ([in_call]); the run's configurations are [run_trace]. *)
 From Typ Require Import SyncMap.Model SyncMap.Inv SyncMap.SetAtomic Lib.Lin SyncMap.Linearizable.
 
+(* a step of a Range frame does not change the abstract contents *)
+Lemma cons_Range t i f ch i' o j cb :
+  f_call f = CRange j cb -> frame_ok f -> frame_pc_ok f -> WF_core (i_st i) -> (in_cs f = true -> WFL (i_st i) f) ->
+  ref_inv (i_st i) f -> step_frame t i f ch = Some (Ok (i', o)) ->
+  forall k, abs_lookup (i_st i') k = abs_lookup (i_st i) k.
+Proof.
+  intros Hcall [He Hst Hdel Hpost] Hpk Hc Hw [_ Hrp] H k. unfold frame_pc_ok in Hpk. rewrite Hcall in Hpk.
+  unfold step_frame in H. unfold WFL, in_cs in Hw. unfold cs_class in Hw. unfold ref_prom in Hrp.
+  destruct (f_pc f) eqn:Hpc; try discriminate Hpk; rewrite ?Hcall in H; cbn in H, Hw, Hrp;
+    repeat case_match; simplify_eq; try reflexivity.
+  destruct (Hw eq_refl) as [_ Hwa]. cbn. destruct (dirty (i_st i)) as [d|] eqn:Hd; [|congruence]. cbn. apply abs_promote; auto.
+Qed.
+
 (* programs: the five calls of [lin_frag] and Range with a callback that only counts / stops *)
 Definition rfrag (c : call) : Prop :=
   match c with
@@ -447,16 +460,16 @@ Proof.
       intros k v Hin. eapply seen_val_mono; eauto.
 Qed.
 
-Theorem RInv_init progs : Forall (Forall rfrag) progs -> RInv [init_config 1 progs] (init_config 1 progs).
+Theorem RInv_init z progs : Forall (Forall rfrag) progs -> RInv [init_config_z [z] progs] (init_config_z [z] progs).
 Proof.
   intros Hfr.
-  assert (Hthreads : forall t th, nth_error (c_threads (init_config 1 progs)) t = Some th ->
+  assert (Hthreads : forall t th, nth_error (c_threads (init_config_z [z] progs)) t = Some th ->
             exists p, Forall rfrag p /\ th = next_call (Thread p [] [] false)).
   { intros t th. cbn. rewrite nth_error_map. destruct (nth_error progs t) as [p|] eqn:E; [|discriminate]. cbn.
     intros [= <-]. exists p. split; [|reflexivity]. rewrite Forall_forall in Hfr. apply Hfr. eapply nth_error_In, E. }
   constructor.
   - left. reflexivity.
-  - exists empty_inst. reflexivity.
+  - exists (empty_inst_z z). reflexivity.
   - intros t th Hth. destruct (Hthreads t th Hth) as (p & Hp & ->). unfold next_call. cbn. destruct p as [|c0 p]; cbn.
     + split; [constructor|]. split; [constructor|lia].
     + inversion Hp; subst. split; [assumption|]. split; [constructor; [assumption|constructor]|lia].
@@ -482,30 +495,30 @@ Proof.
       apply IH; auto. eapply RInv_weaken; [|exact HR]. intros x Hx. apply in_or_app. auto.
 Qed.
 
-Theorem RInv_reachable progs sched :
+Theorem RInv_reachable z progs sched :
   Forall (Forall rfrag) progs ->
-  RInv (run_trace (init_config 1 progs) sched) (run_schedule (init_config 1 progs) sched).
+  RInv (run_trace (init_config_z [z] progs) sched) (run_schedule (init_config_z [z] progs) sched).
 Proof.
   intros Hfr. unfold run_trace. change (?c :: ?l) with ([c] ++ l).
-  apply RInv_run; [apply Inv_init|apply Inv2_init|apply RInv_init, Hfr].
+  apply RInv_run; [apply Inv_init_z|apply Inv2_init_z|apply RInv_init, Hfr].
 Qed.
 
 (* (1) Range calls its function at most once per key *)
-Theorem range_once progs sched t th i out cnt :
+Theorem range_once z progs sched t th i out cnt :
   Forall (Forall rfrag) progs ->
-  let c := run_schedule (init_config 1 progs) sched in
+  let c := run_schedule (init_config_z [z] progs) sched in
   nth_error (c_threads c) t = Some th -> nth_error (t_results th) i = Some (RRange out cnt) ->
   List.NoDup (map fst out).
-Proof. intros Hfr c Hth Hn. apply (ri_res _ _ (RInv_reachable progs sched Hfr) t th i out cnt Hth Hn). Qed.
+Proof. intros Hfr c Hth Hn. apply (ri_res _ _ (RInv_reachable z progs sched Hfr) t th i out cnt Hth Hn). Qed.
 
 (* (2) ... only with a value the key held at some configuration inside the call *)
-Theorem range_values progs sched t th i out cnt :
+Theorem range_values z progs sched t th i out cnt :
   Forall (Forall rfrag) progs ->
-  let c := run_schedule (init_config 1 progs) sched in
+  let c := run_schedule (init_config_z [z] progs) sched in
   nth_error (c_threads c) t = Some th -> nth_error (t_results th) i = Some (RRange out cnt) ->
   forall k v, In (k, v) out ->
-  exists cj, In cj (run_trace (init_config 1 progs) sched) /\ in_call cj t i /\ abs_lookup (st0 cj) k = Some v.
-Proof. intros Hfr c Hth Hn. apply (ri_res _ _ (RInv_reachable progs sched Hfr) t th i out cnt Hth Hn). Qed.
+  exists cj, In cj (run_trace (init_config_z [z] progs) sched) /\ in_call cj t i /\ abs_lookup (st0 cj) k = Some v.
+Proof. intros Hfr c Hth Hn. apply (ri_res _ _ (RInv_reachable z progs sched Hfr) t th i out cnt Hth Hn). Qed.
 
 (* ================================================================== *)
 (* Part C: completeness of Range                                       *)
@@ -755,14 +768,15 @@ Definition stable (ptr : list (config * nat)) (t i : nat) (k v : Z) : Prop :=
   forall x, In x ptr -> in_call_at x t i -> abs_lookup (st0 x.1) k = Some v.
 
 Record RInv3 (progs : list (list call)) (ptr : list (config * nat)) (c : config) : Prop := {
-  r3_calls : forall t th, nth_error (c_threads c) t = Some th ->
-             Forall (fun x => In x (concat progs)) (t_prog th) /\ Forall (fun f => In (f_call f) (concat progs)) (t_stack th);
+  r3_len : length (c_threads c) = length progs;
+  r3_prog : forall t th p, nth_error progs t = Some p -> nth_error (c_threads c) t = Some th ->
+            exists done, p = done ++ map f_call (t_stack th) ++ t_prog th /\ length done = length (t_results th);
   r3_pre : forall t th f, nth_error (c_threads c) t = Some th -> t_stack th = [f] -> is_range (f_call f) = true -> prelock f;
   r3_comp : forall t th f, nth_error (c_threads c) t = Some th -> t_stack th = [f] -> is_range (f_call f) = true ->
             final_pc (f_pc f) = true -> comp (st0 c) f (stable ptr t (length (t_results th)));
   r3_res : forall t th i out cnt, nth_error (c_threads c) t = Some th -> nth_error (t_results th) i = Some (RRange out cnt) ->
            forall k v, stable ptr t i k v ->
-           In (k, v) out \/ exists n, In (CRange 0 (CbStop (Some n))) (concat progs) /\ (Z.of_nat n <= cnt)%Z
+           In (k, v) out \/ exists p n, nth_error progs t = Some p /\ nth_error p i = Some (CRange 0 (CbStop (Some n))) /\ (Z.of_nat n <= cnt)%Z
 }.
 
 Lemma stable_mono ptr ptr' t i k v : (forall x, In x ptr -> In x ptr') -> stable ptr' t i k v -> stable ptr t i k v.
@@ -770,7 +784,7 @@ Proof. intros H S x Hx. apply S, H, Hx. Qed.
 
 Lemma RInv3_weaken progs ptr ptr' c : (forall x, In x ptr -> In x ptr') -> RInv3 progs ptr c -> RInv3 progs ptr' c.
 Proof.
-  intros Hsub [A B C D]. constructor; auto.
+  intros Hsub [L A B C D]. constructor; auto.
   - intros t th f H1 H2 H3 H4 k v Hk. apply (C t th f H1 H2 H3 H4 k v). eapply stable_mono; eauto.
   - intros t th i out cnt H1 H2 k v Hk. apply (D t th i out cnt H1 H2 k v). eapply stable_mono; eauto.
 Qed.
@@ -781,7 +795,7 @@ Proof. destruct (f_call f); try discriminate. intros _ H E. rewrite E in H. disc
 Theorem RInv3_step progs tr ptr c t ch c' :
   Inv c -> Inv2 c -> RInv tr c -> RInv3 progs ptr c -> step c t ch = Some c' -> RInv3 progs (ptr ++ [(c, t)]) c'.
 Proof.
-  intros HI HI2 HR HR3 H. pose proof HR3 as [Rcalls Rpre Rcomp Rres3]. pose proof HR as [_ _ Rfrag Rfresh Rrange _].
+  intros HI HI2 HR HR3 H. pose proof HR3 as [Rlen Rcalls Rpre Rcomp Rres3]. pose proof HR as [_ _ Rfrag Rfresh Rrange _].
   destruct (rstep_facts tr c t ch c' HI HI2 HR H)
     as (th & f & i & i' & o & th' & Hth & Hst & Hfr & Hi & Hs0 & Hs0' & Hok & Hpk & Hcore & Hwfl & Href & Hsf & Hth' & Hthe & Hnrr).
   assert (Hlt : t < length (c_threads c)) by (eapply nth_error_lt; eauto).
@@ -790,7 +804,6 @@ Proof.
   assert (C1 : forall t2, t2 <> t -> nth_error (c_threads c') t2 = nth_error (c_threads c) t2).
   { intros t2 N. rewrite Hth'. apply nth_error_set_nth_list_ne; auto. }
   assert (Ct : nth_error (c_threads c') t = Some th') by (rewrite Hth'; apply nth_error_set_nth_list_eq; exact Hlt).
-  destruct (Rcalls t th Hth) as [Hcp Hcs]. rewrite Hst in Hcs. inversion Hcs as [|? ? Hcf _]; subst.
   destruct (Rfrag t th Hth) as (Hfp & _ & _).
   (* the stepping thread is in its call in c (possibly taking its first step) *)
   assert (Hat : in_call_at (c, t) t (length (t_results th))).
@@ -818,18 +831,22 @@ Proof.
     apply (sf_range3 t i f ch jj cbb _ Hcall Hok Hpk Hcore Hwfl Href A (Rpre t th f Hth Hst Hrg) HKt); [|exact Hsf].
     intros Hfin. rewrite <- Hs0. intros k v S. apply (Rcomp t th f Hth Hst Hrg Hfin k v). eapply stable_mono; eauto. }
   assert (Hnewc : forall res, let thn := next_call (Thread (t_prog th) [] res false) in
-            (Forall (fun x => In x (concat progs)) (t_prog thn) /\ Forall (fun f => In (f_call f) (concat progs)) (t_stack thn)) /\
+            (forall done, done ++ map f_call (t_stack thn) ++ t_prog thn = done ++ t_prog th) /\
             (forall f0, t_stack thn = [f0] -> f_pc f0 = first_label (f_call f0) /\ prelock f0) /\ t_results thn = res).
   { intros res thn. unfold thn, next_call. cbn. destruct (t_prog th) as [|c1 p1]; cbn.
-    - split; [split; constructor|]. split; [discriminate|reflexivity].
-    - inversion Hcp; subst. split; [split; [assumption|constructor; [assumption|constructor]]|]. split; [|reflexivity].
+    - split; [reflexivity|]. split; [discriminate|reflexivity].
+    - split; [reflexivity|]. split; [|reflexivity].
       intros f0 [= <-]. split; [reflexivity|]. unfold prelock. destruct c1; discriminate. }
   constructor.
-  - (* r3_calls *)
-    intros t2 th2. destruct (decide (t2 = t)) as [->|N]; [|rewrite (C1 t2 N); apply Rcalls].
-    rewrite Ct. intros [= <-]. destruct (eff o) as [f'|r|? ? ?]; [| |contradiction].
-    + destruct Hthe as [-> Hc']. cbn. split; [exact Hcp|]. constructor; [rewrite Hc'; exact Hcf|constructor].
-    + subst th'. apply Hnewc.
+  - (* r3_len *)
+    rewrite Hth', length_set_nth_list; [exact Rlen|exact Hlt].
+  - (* r3_prog *)
+    intros t2 th2 p Hp. destruct (decide (t2 = t)) as [->|N]; [|rewrite (C1 t2 N); apply Rcalls; exact Hp].
+    rewrite Ct. intros [= <-]. destruct (Rcalls t th p Hp Hth) as (done & Hpd & Hld). rewrite Hst in Hpd. cbn in Hpd.
+    destruct (eff o) as [f'|r|? ? ?]; [| |contradiction].
+    + destruct Hthe as [-> Hc']. cbn. exists done. rewrite Hc'. split; [exact Hpd|exact Hld].
+    + subst th'. destruct (Hnewc (t_results th ++ [rep (f_call f) r])) as (X1 & _ & X3). exists (done ++ [f_call f]).
+      rewrite X3. split; [|rewrite !app_length; cbn; lia]. rewrite X1, <- app_assoc. exact Hpd.
   - (* r3_pre *)
     intros t2 th2 f2. destruct (decide (t2 = t)) as [->|N]; [|rewrite (C1 t2 N); apply Rpre].
     rewrite Ct. intros [= <-]. destruct (eff o) as [f'|r|? ? ?] eqn:Eo; [| |contradiction].
@@ -861,24 +878,27 @@ Proof.
         -- destruct (is_range (f_call f)) eqn:Hrg.
            ++ destruct (f_call f) as [| | | | |jj cbb] eqn:Hcall; try discriminate Hrg.
               destruct (HRg jj cbb eq_refl) as (out1 & cnt1 & -> & Y). cbn in Hn. injection Hn as -> ->.
-              destruct (Y k v S) as [Hin|(n & -> & Hle)]; [auto|]. right. exists n. split; [|exact Hle].
-              cbn in Hfr. subst jj. exact Hcf.
+              destruct (Y k v S) as [Hin|(n & -> & Hle)]; [auto|]. right.
+              cbn in Hfr. subst jj.
+              destruct (nth_error progs t) as [p|] eqn:Hp.
+              ** destruct (Rcalls t th p Hp Hth) as (done & Hpd & Hld). rewrite Hst in Hpd. cbn in Hpd.
+                 exists p, n. split; [reflexivity|]. split; [|exact Hle]. rewrite Hpd, <- Hld.
+                 rewrite nth_error_app2 by lia. rewrite Nat.sub_diag. cbn. rewrite Hcall. reflexivity.
+              ** exfalso. apply nth_error_None in Hp. lia.
            ++ exfalso. eapply (Hnrr eq_refl r out cnt eq_refl). symmetry. exact Hn.
     + rewrite (C1 t2 N). intros Hth2 Hn k v S. apply (Rres3 t2 th2 i2 out cnt Hth2 Hn k v). eapply stable_mono; eauto.
 Qed.
 
-Theorem RInv3_init progs : RInv3 progs [] (init_config 1 progs).
+Theorem RInv3_init z progs : RInv3 progs [] (init_config_z [z] progs).
 Proof.
-  assert (Hthreads : forall t th, nth_error (c_threads (init_config 1 progs)) t = Some th ->
+  assert (Hthreads : forall t th, nth_error (c_threads (init_config_z [z] progs)) t = Some th ->
             exists p, In p progs /\ th = next_call (Thread p [] [] false)).
   { intros t th. cbn. rewrite nth_error_map. destruct (nth_error progs t) as [p|] eqn:E; [|discriminate]. cbn.
     intros [= <-]. exists p. split; [eapply nth_error_In, E|reflexivity]. }
   constructor.
-  - intros t th Hth. destruct (Hthreads t th Hth) as (p & Hp & ->).
-    assert (Hall : Forall (fun x => In x (concat progs)) p).
-    { apply Forall_forall. intros x Hx. apply in_concat. exists p. auto. }
-    unfold next_call. cbn. destruct p as [|c0 p]; cbn; [split; constructor|]. inversion Hall; subst.
-    split; [assumption|constructor; [assumption|constructor]].
+  - cbn. apply map_length.
+  - intros t th p Hp. cbn. rewrite nth_error_map, Hp. cbn. intros [= <-]. exists [].
+    unfold next_call. cbn. destruct p as [|c0 p]; split; reflexivity.
   - intros t th f Hth. destruct (Hthreads t th Hth) as (p & _ & ->). unfold next_call. cbn.
     destruct p as [|c0 p]; cbn; [discriminate|]. intros [= <-] _. unfold prelock. destruct c0; discriminate.
   - intros t th f Hth. destruct (Hthreads t th Hth) as (p & _ & ->). unfold next_call. cbn.
@@ -901,16 +921,32 @@ Qed.
 (* (3) every key that holds one and the same value v in every configuration of
    the (closed) interval of a completed Range call is passed to the callback
    with v - unless the callback asked to stop (its bound n was reached) *)
-Theorem range_complete progs sched t th i out cnt :
+Theorem range_complete z progs sched t th i out cnt :
   Forall (Forall rfrag) progs ->
-  let c := run_schedule (init_config 1 progs) sched in
+  let c := run_schedule (init_config_z [z] progs) sched in
   nth_error (c_threads c) t = Some th -> nth_error (t_results th) i = Some (RRange out cnt) ->
   forall k v,
-    (forall x, In x (steps_from (init_config 1 progs) sched) -> in_call_at x t i -> abs_lookup (st0 x.1) k = Some v) ->
-    In (k, v) out \/ exists n, In (CRange 0 (CbStop (Some n))) (concat progs) /\ (Z.of_nat n <= cnt)%Z.
+    (forall x, In x (steps_from (init_config_z [z] progs) sched) -> in_call_at x t i -> abs_lookup (st0 x.1) k = Some v) ->
+    In (k, v) out \/ exists p n, nth_error progs t = Some p /\ nth_error p i = Some (CRange 0 (CbStop (Some n))) /\ (Z.of_nat n <= cnt)%Z.
 Proof.
   intros Hfr c Hth Hn k v S.
-  pose proof (RInv3_run progs sched [init_config 1 progs] [] (init_config 1 progs) (Inv_init 1 progs) (Inv2_init 1 progs)
-                (RInv_init progs Hfr) (RInv3_init progs)) as HR3. cbn [app] in HR3.
+  pose proof (RInv3_run progs sched [init_config_z [z] progs] [] (init_config_z [z] progs) (Inv_init_z [z] progs) (Inv2_init_z [z] progs)
+                (RInv_init z progs Hfr) (RInv3_init z progs)) as HR3. cbn [app] in HR3.
   apply (r3_res _ _ _ HR3 t th i out cnt Hth Hn k v). exact S.
+Qed.
+
+(* in particular a Range whose own callback never stops reports every such key,
+   whatever the other calls of the program (other Ranges included) do *)
+Corollary range_complete_nonstop z progs sched t th i out cnt p :
+  Forall (Forall rfrag) progs ->
+  nth_error progs t = Some p -> nth_error p i = Some (CRange 0 (CbStop None)) ->
+  let c := run_schedule (init_config_z [z] progs) sched in
+  nth_error (c_threads c) t = Some th -> nth_error (t_results th) i = Some (RRange out cnt) ->
+  forall k v,
+    (forall x, In x (steps_from (init_config_z [z] progs) sched) -> in_call_at x t i -> abs_lookup (st0 x.1) k = Some v) ->
+    In (k, v) out.
+Proof.
+  intros Hfr Hp Hpi c Hth Hn k v S.
+  destruct (range_complete z progs sched t th i out cnt Hfr Hth Hn k v S) as [H|(p2 & n & Hp2 & Hi2 & _)]; [exact H|].
+  congruence.
 Qed.
